@@ -4,6 +4,7 @@ import (
 	"crypto/sha256"
 	"encoding/hex"
 	"fmt"
+	"github.com/99designs/gqlgen/graphql/handler/extension"
 	"regexp"
 	"strings"
 
@@ -232,6 +233,8 @@ func errSite(want, got []refexec.Err) string {
 	return "different-errors"
 }
 
+var echoPanicArg = regexp.MustCompile(`echo\(b: ?"BLOB_PANIC"`)
+
 var plainCorpus = ops.Corpus
 
 func runC01(rc *core.RunCtx) {
@@ -418,6 +421,17 @@ func runC04(rc *core.RunCtx) {
 	base.NullPM = []int{0, 100}[t.Choose(2, "nullpm")]
 	srv := NewServer(rc, v, base)
 	deferOp := hasDefer(op.Query)
+	// an argument of echo (the one field with a custom complexity function) whose unmarshaler panics
+	panicArgOnEcho := echoPanicArg.MatchString(op.Query) || (strings.Contains(op.Query, "echo(b:$") && strings.Contains(fmt.Sprint(op.Vars), "BLOB_PANIC"))
+	complexityOn := t.Bool(1, 4, "complexity-limit") && !(deferOp && panicArgOnEcho)
+	if complexityOn {
+		// a complexity limit nothing comes near: the extension still evaluates the arguments of
+		// fields with a custom complexity function (through the same unmarshalers) before
+		// execution starts
+		srv.Ex.Use(extension.FixedComplexityLimit(1 << 30))
+		srv.H.Use(extension.FixedComplexityLimit(1 << 30))
+		rc.W.Count("complexity_limit_runs")
+	}
 	srv.StockRecover = !deferOp && t.Bool(1, 8, "stock-recover")
 	if srv.StockRecover {
 		rc.W.Count("stock_recover_runs")
@@ -427,10 +441,23 @@ func runC04(rc *core.RunCtx) {
 		if !deferOp {
 			c.ViaHTTP = t.Bool(1, 3, "http")
 		}
+		if complexityOn && panicArgOnEcho {
+			// the panic is raised while the operation context is being created: only a server
+			// (handler.Server recovers there) can be asked, not the bare executor
+			c.ViaHTTP = true
+		}
 		return c
 	}
 	cfg0 := mk(base)
 	out0 := Execute(rc, cfg0)
+	if complexityOn && panicArgOnEcho {
+		if j, err := parsers.ParseJSON([]byte(out0.HTTPBody)); err == nil && j.K == parsers.Obj {
+			if d := j.Get("data"); (d == nil || d.IsNull()) && out0.HTTPStatus != 200 {
+				rc.Fail("argument-panic-not-contained", "complexity-extension", "with a complexity limit installed, the panicking unmarshaler of one argument fails the whole request (status %d) instead of that field; op=%q\nbody %s", out0.HTTPStatus, op.Query, out0.HTTPBody)
+				return
+			}
+		}
+	}
 	if !checkFaulted(rc, cfg0, out0, "fault-free pass") {
 		return
 	}
